@@ -18,8 +18,10 @@ is mixed in.
 from __future__ import annotations
 
 import asyncio
+import contextlib
 import random
 from typing import Any
+from unittest.mock import patch
 
 from . import air as airmod, harness, vloop
 from .boundary import clocks_patched
@@ -156,6 +158,25 @@ def ensure_fakeable(dev) -> None:
     dev._make_fake()
 
 
+WAITS: dict[str, tuple[float, float]] = {}  # role -> (virtual time its current wait began, the wait's length)
+
+
+@contextlib.contextmanager
+def waits_tapped():
+    """Observe (from outside) when each end of a handshake starts waiting for the next frame, and for how long."""
+    from ramses_rf import binding_fsm as bf
+
+    orig = bf.BindStateBase._wait_for_fut_result
+
+    async def tapped(self, timeout):  # type: ignore[no-untyped-def]
+        loop = vloop.current()
+        WAITS["respondent" if type(self).__name__.startswith("Resp") else "supplicant"] = (loop.time() if loop else 0.0, float(timeout))
+        return await orig(self, timeout)
+
+    with patch.object(bf.BindStateBase, "_wait_for_fut_result", tapped):
+        yield
+
+
 class Script:
     """Per-phase delivery to the *peer* (a stick always hears its own echo)."""
 
@@ -195,6 +216,16 @@ class Script:
             return self.in_order(target, [base + i * p["gap"] for i in range(p["n"])])
         if p["kind"] == "delay":
             return self.in_order(target, [base + p["secs"]])
+        if p["kind"] == "at_deadline":
+            # the frame reaches the peer in the very loop iteration in which the peer's wait for it runs out (or a
+            # millisecond before / after): the reader's callback and the wait's timer are both due at that instant
+            start, length = WAITS.get({"offer": "respondent", "accept": "supplicant", "confirm": "respondent", "addenda": "respondent"}[ph], (None, None))
+            loop = vloop.current()
+            if start is None or loop is None or n > 0:
+                return self.in_order(target, [base])
+            self.applied.append(f"{ph}:hit-deadline")
+            loop.busy_cost = 0.0005  # from now on a loop iteration takes half a millisecond (see vloop)
+            return self.in_order(target, [max(base, start + length + p["eps"] - loop.time())])
         return self.in_order(target, [base])
 
     def in_order(self, target: str, delays: list[float]) -> list[float]:
@@ -214,6 +245,7 @@ def plan_script(rng, script: Script, systematic: int | None, n_phases: int) -> d
     options: list[dict[str, Any]] = (
         [{"kind": "copies", "n": n, "gap": g} for n in (2, 3) for g in (0.0, 0.02, 0.1)]
         + [{"kind": "delay", "secs": s} for s in (0.5, 2.9, 3.1, 4.9, 5.2, 6.0)]
+        + [{"kind": "at_deadline", "eps": -0.0005 * k} for k in range(8)]
         + [{"kind": "lost", "times": t} for t in (1, 99)]
         + [{"kind": "echo_lost", "times": t} for t in (1, 99)]
     )
@@ -622,7 +654,8 @@ def run(ctx) -> None:
         harness.reset_transport_globals()
 
         async def go(loop, kind=kind, trial=trial):
-            with clocks_patched():
+            WAITS.clear()
+            with clocks_patched(), waits_tapped():
                 await {"pair": episode, "solo": solo_episode, "api": api_episode}[kind](loop, ctx, trial)
 
         try:
@@ -644,7 +677,8 @@ def replay(data: dict[str, Any]) -> int:
         harness.reset_transport_globals()
 
         async def go(loop, ep=ep, ctx=ctx):
-            with clocks_patched():
+            WAITS.clear()
+            with clocks_patched(), waits_tapped():
                 await (solo_episode if "solo" in ep else api_episode if ep.get("api") else episode)(loop, ctx, ep["trial"])
 
         vloop.run(go)
